@@ -89,11 +89,17 @@ def main(tier):
         run.fail_closed("extraction (overflow off) failed", str(e)[-800:])
     run.floor("functions in eval_i64::ast", nf, 3)
     arms = m.tb.eval_arms()
+    from .. import chain
+    real_arms = set()
+    for nm in ("sqrt(", "root(", "ln(", "lb(", "log(", "exp("):
+        r_, _ = chain.function_chain(m, nm)
+        if r_:
+            real_arms.add(r_[0])
     # float round trips only in the real-valued functions
     for ctor, a in arms.items():
         has = any(isinstance(s, tuple) and s and s[0] == "cast" and ((s[1] == "i64" and s[2] == "f64") or (s[1] == "f64" and s[2] == "i64")) for s in subterms(a["term"]))
         if has:
-            run.ob(ctor in REAL_ARMS, "float-roundtrip|%s" % ctor, "C06-a conversion through f64 only in the real-valued functions (sqrt, root, ln, lb, log, exp)", "%s arm %s" % (where(m, "::ast::eval"), ctor), "arm %s converts through f64" % ctor)
+            run.ob(ctor in real_arms, "float-roundtrip|%s" % ctor, "C06-a conversion through f64 only in the real-valued functions (sqrt, root, ln, lb, log, exp)", "%s arm %s" % (where(m, "::ast::eval"), ctor), "arm %s converts through f64" % ctor)
     # wrapping_rem only under a non-zero-divisor guard
     for g in [f for f in F.fns if f.evaluator == "eval_i64" and "::ast::" in f.key and f.thir and not f.derived and f.kind != "Closure"]:
         t = m.tb.fn_term(g, inline_pure=True, eval_fn=(m.tb.eval_fn().path if g.key.endswith("::eval") else None))
@@ -114,7 +120,8 @@ def main(tier):
     for kind, s in OPS:
         check_chain(run, m, kind, s, "C06", "C06-b the arm computes the exact result through a checked operation and maps None to Err")
     # n!
-    fa = arms.get("Factorial")
+    r_, _ = chain.postfix_chain(m, "!")
+    fa = arms.get(r_[0]) if r_ else None
     okf = False
     if fa is not None:
         e = M(("if", ("op", "ge", "i64", ("ev", ("C0",)), ("lit", "0", "i64")), "?pos", "?neg"), fa["term"])
@@ -127,7 +134,13 @@ def main(tier):
     run.ob(okf, "meaning|eval_i64|post|!", "C06-b n! (n >= 0) is the checked product 2*3*..*n, Err on overflow", "%s arm Factorial" % where(m, "::ast::eval"), T.show(fa["term"])[:300] if fa else "no arm",
            sample={"evaluator": "eval_i64", "surface": "!", "term": "checked product 2..=n"})
     # no default-on-None in the arithmetic arms
-    for ctor in ("Add", "Subtract", "Multiply", "Divide", "Modulo", "Negative", "Pow", "LeftShift", "RightShift", "Abs", "Factorial"):
+    arith = []
+    for kind, s_ in OPS + [("post", "!")]:
+        fn_ = {"bin": chain.binary_chain, "pre": chain.prefix_chain, "fn": chain.function_chain, "post": chain.postfix_chain}[kind]
+        r_, _ = fn_(m, s_)
+        if r_ and r_[0] not in arith and r_[0] != "identity":
+            arith.append(r_[0])
+    for ctor in arith:
         a = arms.get(ctor)
         if a is None:
             continue
